@@ -92,6 +92,7 @@ func initProcEnv() {
 	})
 	installTransport()
 	initPKI()
+	startWatchdogService()
 }
 
 func closeProcEnv() {
@@ -232,6 +233,7 @@ type World struct {
 	corruptStore     bool
 	jwksBusy         bool
 	FaultsOff        bool
+	stall            *stallCtl
 	Boots            int
 	evlog            []string
 	SimSecs          float64
@@ -356,6 +358,7 @@ func (w *World) Close() {
 			r.cancel()
 		}
 	}
+	w.stallClose()
 	w.Net.Close()
 	w.SimSecs = time.Since(w.start).Seconds()
 }
@@ -1097,6 +1100,20 @@ func (w *World) cancelActive(t *Task) {
 			c.Faults = c.Faults[:n-1]
 		}
 		c.cancelNow(w)
+	}
+}
+
+// dropFaultEntry removes the entry faultAt just recorded for the check task t is running (fault kinds that are
+// not failures of a component).
+func (w *World) dropFaultEntry(t *Task) {
+	if t == nil {
+		return
+	}
+	w.mu.Lock()
+	c := w.active[t.ID]
+	w.mu.Unlock()
+	if c != nil && len(c.Faults) > 0 {
+		c.Faults = c.Faults[:len(c.Faults)-1]
 	}
 }
 
